@@ -128,7 +128,8 @@ fn check(id: &str, tier: Tier) -> i32 {
     let mut regression = Vec::new();
 
     // 1. regression tier: saved inputs of fixed and known findings
-    for k in load_known().iter().filter(|k| k.property == id || k.also.iter().any(|a| a == id)) {
+    let skip_replays = std::env::var("VH_SKIP_REPLAYS").is_ok();
+    for k in load_known().iter().filter(|k| !skip_replays && (k.property == id || k.also.iter().any(|a| a == id))) {
         let path = Path::new(VERIF).join(&k.replay);
         // A replay file names the property whose oracle set it is run under.
         let b = match std::fs::read(&path) {
